@@ -89,6 +89,7 @@ func runMutant(id, patch string) (failed []string, errs []string, err error) {
 	for _, l := range plan.lemmas {
 		all = append(all, ld.verifyLemma(l).Obls...)
 	}
+	planFuncs = done
 	for _, r := range ld.staticScans(id) {
 		all = append(all, r.Obls...)
 	}
